@@ -401,6 +401,77 @@ def c30():
     ])
 
 
+META["C14"] = dict(
+    text="Value trees with string/int/bool/null leaves are rendered by G-YAML with an independent presentation choice at every node (block/flow, plain/single/double/literal/folded with every chomping and indentation indicator, compact items, indentation 1-8, comments, blank lines, LF/CRLF/CR, anchors and aliases, document markers, 1-4 documents); each stream is kept only if libyaml (serde_yaml) reads it back as the ground truth. YamlIndex::build + cursor walk (keys, typed scalars, aliases resolved) and the library's JSON output must reproduce the tree of every document. 44 presentation features are counted and required. A CLI leg compares `yq -o json` (compact and pretty transcoders) with the same ground truth. Miri base + avx2 in the thorough tier.",
+    note="Presentation space excludes what docs/compliance/yaml/limitations.md documents as unsupported. Well-formed shapes that succinctly mishandles are generated as named 'trigger' constructs (at most one kind per stream) so that each root cause keeps one stable signature; clean streams (no trigger) must be loaded exactly.",
+    technique=SAN + "ground-truth-by-construction loader monitor with an independent-reader self-check + Miri")
+
+META["C18"] = dict(
+    text="Every G-YAML stream accepted by the generator self-check must be accepted by yaml::validate (and by `yq --validate`); for mutants, soups and random bytes the validator must return, and a reported error's line/column must equal the documented model of its offset for LF/CRLF/CR texts. Miri in the thorough tier.",
+    note="Streams are split into 'clean' (no construct known to be mishandled) and 'risky'; any false reject on a clean stream is a new violation.",
+    technique=SAN + "acceptance monitor over generated well-formed streams + position-consistency oracle + Miri")
+
+META["C29"] = dict(
+    text="For G-YAML streams (block and flow, multi-document) every offset inside a recorded scalar or key span is located; the printed expression is evaluated against the array of the stream's documents and must yield the node's ground-truth value (for a key: the value it names); at_offset must yield the token's own value. A CLI leg drives `yq-locate` on a sample.",
+    note="Spans and values come from the renderer (ground truth by construction).",
+    technique=SAN + "ground-truth-by-construction monitor over every qualifying offset")
+
+
+@plan("C14")
+def c14():
+    return Check("C14", [
+        Leg("lib-default", "c14", shards=(4, 16)),
+        Leg("miri-base", "c14", shards=(1, 2), tiers=("thorough",), timeout=MIRI_T),
+        Leg("miri-avx2", "c14", shards=(1, 2), tiers=("thorough",), timeout=MIRI_T),
+        Leg("asan-lib", "c14", shards=(2, 8), tiers=("thorough",)),
+    ])
+
+
+@plan("C18")
+def c18():
+    return Check("C18", [
+        Leg("lib-default", "c18", shards=(4, 16)),
+        Leg("miri-base", "c18", shards=(1, 2), tiers=("thorough",), timeout=MIRI_T),
+    ])
+
+
+@plan("C29")
+def c29():
+    return Check("C29", [Leg("lib-default", "c29", shards=(2, 8))])
+
+
+META["C03"] = dict(
+    text="Non-decreasing u32 sequences (duplicates, gaps to u32::MAX, dense runs, all-equal, lengths across the 256-element sample boundary up to 200k, low_width 0 and 31) are encoded; len/universe/get(i)/predecessor(v)/iteration are compared with the plain Vec, and cursors are driven by random operation sequences (advance_one, advance_by k incl. 0,1,63..65,>=len,usize::MAX, seek anywhere, cursor_from, clone-and-diverge) with every observer compared against a Vec-index model after each operation. 28 history classes (same-word / cross-word advance, after exhaustion, seek back, revive, ...) are counted and required. Default vs simd digest; Miri base + avx2 in the thorough tier.",
+    note="A cursor operation that hangs would surface as a leg timeout (harness error), not as a VIOLATION.",
+    technique=SAN + "reference-model monitor over operation histories + Miri")
+
+META["C04"] = dict(
+    text="Bit strings from G-PAREN (random balanced trees, Dyck prefixes/suffixes, arbitrary bits, monotone runs, depth > 32767, > 131072 bits so L1/L2 summaries and the i16->i32 widening are exercised) in four storage variants (clean, stray bits in the last used word, whole surplus words, both) x NoSelect / WithSelect / WithCsPoppy at several rates x owned / borrowed storage x the free functions; every navigation answer for all positions (sampled with all block boundaries on large inputs) is compared with O(n) excess-scan definitions precomputed by a stack. Unspecified answers (documented as undefined) only enter the cross-build digest. Default vs simd digest; Miri in the thorough tier (L1 scale).",
+    note="L2 summary paths are too slow to interpret under Miri (66k-bit input > 15 min) and are covered natively only.",
+    technique=SAN + "reference-model monitor (linear excess scans) + cross-build digest + Miri")
+
+
+@plan("C03")
+def c03():
+    return Check("C03", [
+        Leg("lib-default", "c03", shards=(2, 8), digest_group="c03"),
+        Leg("lib-simd", "c03", shards=(2, 8), digest_group="c03"),
+        Leg("lib-checked", "c03", shards=(1, 4), tiers=("thorough",), seed_offset=40),
+        Leg("miri-base", "c03", shards=(1, 2), tiers=("thorough",), timeout=MIRI_T),
+        Leg("miri-avx2", "c03", shards=(1, 1), tiers=("thorough",), timeout=MIRI_T),
+    ])
+
+
+@plan("C04")
+def c04():
+    return Check("C04", [
+        Leg("lib-default", "c04", shards=(2, 8), digest_group="c04"),
+        Leg("lib-simd", "c04", shards=(2, 8), digest_group="c04"),
+        Leg("miri-base", "c04", shards=(1, 2), tiers=("thorough",), timeout=MIRI_T),
+        Leg("miri-avx2", "c04", shards=(1, 1), tiers=("thorough",), timeout=MIRI_T),
+    ])
+
+
 def setup():
     """MANIFEST.setup_cmd: pre-build every configuration used by the quick tier, then the rest."""
     import subprocess
